@@ -75,6 +75,16 @@ Theorem C11_order_independent : forall cs cs',
 Proof. exact order_independent. Qed.
 Print Assumptions C11_order_independent.
 
+(* stronger, on whole subtrees: two consistent roles whose critical descendants hold the same
+   multiset of states (all descendants: of statuses) report the same, whatever the order and
+   the nesting of the roles in between *)
+Theorem C11_report_depends_on_multiset : forall t t',
+  Inv false t -> Inv false t' -> is_agg t = true -> is_agg t' = true ->
+  (Permutation (crit_states t) (crit_states t') -> st_of t = st_of t') /\
+  (Permutation (leaf_stats t) (leaf_stats t') -> stat_of t = stat_of t').
+Proof. exact report_depends_on_multiset. Qed.
+Print Assumptions C11_report_depends_on_multiset.
+
 (* ---- every sequence of updates keeps "each aggregator's cache is the fold of its children's
         caches" (strong form w = false; weak form w = true exempts aggregators no update can
         reach), for every tree ---- *)
@@ -133,6 +143,23 @@ Theorem C11_commute : forall w t o1 o2,
 Proof. exact updates_commute. Qed.
 Print Assumptions C11_commute.
 
+(* ---- the token semantics contains the sequential one: a call run alone does exactly what
+        upd_state says (tree, what the ParentAdapter is told), and the schedule that runs the
+        calls one after the other yields run_ops ---- *)
+
+Theorem C11_call_alone_is_sequential_update : forall p v t,
+  c_tree (run_alone p v t) = fst (upd_state p v t) /\
+  quiescent (run_alone p v t) = true /\
+  c_adapter (run_alone p v t) = match snd (upd_state p v t) with Some s => [s] | None => [] end.
+Proof. exact run_alone_spec. Qed.
+Print Assumptions C11_call_alone_is_sequential_update.
+
+Theorem C11_sequential_schedule_is_run_ops : forall t ups,
+  let c := run_sched (seq_sched ups) (cinit t ups) in
+  c_tree c = run_ops (ops_of ups) t /\ quiescent c = true.
+Proof. exact sequential_schedules. Qed.
+Print Assumptions C11_sequential_schedule_is_run_ops.
+
 (* ---- interleaved updates, all schedules: at quiescence every ancestor of a critical task
         whose last written state is ERROR reports ERROR ---- *)
 
@@ -173,6 +200,16 @@ Theorem C11_error_not_invented_partial : forall t ops p n,
   (st_of n = ERROR <-> In ERROR (crit_states n)).
 Proof. exact error_iff_seq. Qed.
 Print Assumptions C11_error_not_invented_partial.
+
+(* the same on the token semantics: under the schedules that run one call at a time, on every
+   loaded tree whose aggregators all have a counted child *)
+Theorem C11_error_not_invented_sequential_schedules : forall t0 ups,
+  all_counted t0 = true -> is_agg t0 = true ->
+  let c := run_sched (seq_sched ups) (cinit (fresh t0) ups) in
+  quiescent c = true /\
+  (st_of (c_tree c) = ERROR <-> In ERROR (crit_states (c_tree c))).
+Proof. exact not_invented_sequential. Qed.
+Print Assumptions C11_error_not_invented_sequential_schedules.
 
 (* non-vacuity: a concrete loaded tree with task, nested aggregator and a non-critical leaf that
    satisfies the strong invariant; the two refutation witnesses are loaded trees too *)
